@@ -9,6 +9,7 @@ import Jrpc.Locks
 import Jrpc.Stream
 import Jrpc.Corr
 import Jrpc.Cancel
+import Jrpc.Keepalive
 /-
   Jrpc.Ops — dispatch of driver operations onto the model's executable definitions.
 -/
@@ -437,6 +438,56 @@ def opCancel (j : Json) : R Json := do
     ("cancelled", Json.arr ((hs.filter (fun h => s.ctxCancelled h)).map (fun (n : Nat) => (n : Json))).toArray),
     ("connDone", s.connDone)]
 
+/-- op "keepalive": a timed trace of one connection object (microseconds).  A read may only fail, and
+    the idle timer may only fire, at or after the deadline armed by the latest renewal / re-arm
+    (`Keepalive.rstep?`); every renewal of the read deadline consumes one earlier peer activity (the
+    establishment of a connection counts as one).  `disarm` marks a moment after which read failures
+    are expected for another reason (local close, the idle timer closed the socket). -/
+def opKeepalive (j : Json) : R Json := do
+  let T ← nat j "timeout_us"
+  let slack := natD j "slack_us" 0
+  let mut s : Keepalive.RSt := { deadline := 0 }
+  let mut armed := false
+  let mut idleArmed := false
+  let mut credits : Nat := 1
+  let mut i : Nat := 0
+  let refuse (i : Nat) (why : String) : Json := Json.mkObj [("accepted", false), ("refusedAt", (i : Json)), ("why", why)]
+  for e in arrD j "events" do
+    let t ← nat e "t"
+    match (← str e "e") with
+    | "activity" =>
+      match Keepalive.rstep? T slack s (.activity t) with
+      | some s' => s := s'; credits := credits + 1
+      | none => return refuse i "activity refused"
+    | "renew" =>
+      if credits = 0 then
+        return refuse i s!"the read deadline was renewed at {t}us although no peer activity had arrived since the previous renewal"
+      match Keepalive.rstep? T slack s (.renew t) with
+      | some s' => s := s'; credits := credits - 1; armed := true
+      | none => return refuse i "renew refused"
+    | "arm" =>
+      match Keepalive.rstep? T slack s (.arm t) with
+      | some s' => s := s'; idleArmed := true
+      | none => return refuse i "arm refused"
+    | "idleFire" =>
+      if idleArmed then
+        match Keepalive.rstep? T slack s (.idleFire t) with
+        | some s' => s := s'
+        | none => return refuse i s!"the idle timer fired at {t}us, {s.idleDl - t}us before it was due ({s.idleDl}us)"
+      armed := false
+    | "newconn" => armed := false; credits := 1
+    | "disarm" => armed := false
+    | "readFail" =>
+      if armed then
+        match Keepalive.rstep? T slack s (.readFail t) with
+        | some s' => s := s'
+        | none =>
+          return refuse i s!"read failed at {t}us, {s.deadline - t}us before the armed deadline {s.deadline}us"
+      armed := false
+    | x => throw s!"bad keepalive event {x}"
+    i := i + 1
+  return Json.mkObj [("accepted", true), ("renewals", (s.renewals : Json)), ("credits", (credits : Json))]
+
 def run (j : Json) : R Json := do
   match (← str j "op") with
   | "http" => opHttp j
@@ -454,6 +505,7 @@ def run (j : Json) : R Json := do
   | "corr" => opCorr j
   | "oneshot" => opOneShot j
   | "cancel" => opCancel j
+  | "keepalive" => opKeepalive j
   | "authhttp" => opAuthHttp j
   | op => throw s!"unknown op {op}"
 
